@@ -156,6 +156,7 @@ func main() {
 			m.Cases += rp.Cases
 			m.Nontrivial += rp.Nontrivial
 			m.ConflictExecs += rp.ConflictExecs
+			m.PrunedExecs += rp.PrunedExecs
 			if rp.MaxThreads > m.MaxThreads {
 				m.MaxThreads = rp.MaxThreads
 			}
@@ -253,7 +254,7 @@ func main() {
 		perH = append(perH, map[string]interface{}{"harness": h, "items": m.Items, "executions": m.Execs, "transitions": m.Transitions,
 			"sequential_cases": m.Cases, "nontrivial": m.Nontrivial, "states": len(states[h]), "distinct_outcomes": len(m.Outcomes),
 			"outcomes_sample": top, "bound": m.Bound, "exhaustive_within_bound": m.Exhaustive, "caps_hit": m.CapsHit,
-			"max_threads": m.MaxThreads, "executions_with_thread_conflict": m.ConflictExecs})
+			"max_threads": m.MaxThreads, "executions_with_thread_conflict": m.ConflictExecs, "executions_cut_at_visited_state": m.PrunedExecs})
 	}
 	if len(engineErrs) > 0 {
 		for _, e := range engineErrs {
